@@ -46,15 +46,15 @@ CLAIMED = {
         technique="Coq proof (schedule-independence by permutation + insertion-sort lemma) + sampled real schedules with jitter hook",
         design="§5 C04"),
     "C05": dict(
-        text="Theorems (all file systems, file lists, payloads): the write loop of the -i drivers leaves every named file holding exactly its payload, touches no other path and prints nothing; with --backup the sibling holds the original object (under the stated no-collision hypothesis); the default driver with -i is that loop on the formatted outputs; the payload equals what the run without -i prints (single file). "
+        text="Theorems (all file systems, file lists, payloads): the write loop of the -i drivers leaves every named file holding exactly its payload, touches no other path and prints nothing; with --backup the sibling holds the original object (under the stated no-collision hypothesis); the default driver with -i is that loop on the formatted outputs; the payload equals what the run without -i prints (single file); the same outcome for the two-pass write phase (every backup first) that the parallel drivers use. "
              "Correspondence: every -i run and its twin executed in a scratch directory (4 modes x --backup, stale backups, extension-less/dot files, unnamed bystander files) vs the Coq driver model; oracles: twin payload, motion-only identity, backups, nothing else touched.",
         note=TB + "OS-level behaviour of fs::write/fs::copy not modelled (atomic in the model).",
         technique="Coq proof (file-system map lemmas, induction over the write loop) + driver-model correspondence",
         design="§5 C05"),
     "C06": dict(
-        text="Theorems: for the default/pooled and the parallel --linewise drivers, any unreadable file or aborting unit (any subset, any position), and any formatting error, leaves file system and stdout exactly as before (all reads, executions and formatting precede the first write); --serial refuted with a witness (known finding). "
-             "Fault enumeration at the CLI: 2..4 files x all non-empty fault subsets x {invalid UTF-8, data-dependent abort, missing template field} x 7 modes (incl. pooled via vic opts) x --backup (exhaustive on thorough) vs the Coq driver model; oracle: no named file changed, no stray backup.",
-        note=TB + "Write-time faults and a file vanishing between validation and read are not injected; fs::write atomicity not modelled.",
+        text="Theorems: for the default/pooled and the parallel --linewise drivers, any unreadable file or aborting unit (any subset, any position), and any formatting error, leaves file system and stdout exactly as before (all reads, executions and formatting precede the first write); --serial refuted with a witness (known finding); the write phase with --backup in two passes (every backup, then every file, as the code does since the repair): a backup that cannot be made leaves every named file as it was. "
+             "Fault enumeration at the CLI: 2..4 files x all non-empty fault subsets x {invalid UTF-8, data-dependent abort, missing template field} x 7 modes (incl. pooled via vic opts) x --backup (exhaustive on thorough) vs the Coq driver model; oracle: no named file changed, no stray backup; a directory among the files and a file removed by the run's own commands as further faults (the latter compared with the two-pass model).",
+        note=TB + "Write-time faults (disk full, permissions) are not injected; fs::write atomicity not modelled.",
         technique="Coq proof (phase structure of the drivers) + exhaustive fault enumeration against the driver model",
         design="§5 C06"),
     "C15": dict(
